@@ -176,6 +176,58 @@ Proof.
   destruct t; [reflexivity|]. rewrite ends_ok_tail in He by discriminate. exact He.
 Qed.
 
+
+(** ---- the same loop for any element expression that eats one ordinary character and fails at a newline ---- *)
+Section GenLoop.
+Variable E : pexp.
+Variable okc' : char -> bool.
+Hypothesis HE_char : forall pos c r, okc' c = true -> is_blank c = false -> EV E AtNon pos (c :: r) (POk (S pos) r []).
+Hypothesis HE_stop : forall pos r, EV E AtNon pos (10 :: r) PFail.
+
+Lemma gen_tail : forall n t pos rest, (length t <= n)%nat -> forallb okc' t = true -> ends_ok t = true ->
+  EV (PRepTail E) AtNon pos (t ++ 10 :: rest) (POk (pos + length t) (10 :: rest) []).
+Proof.
+  induction n as [|n IH]; intros t pos rest Hl Hok He.
+  - destruct t; [|cbn in Hl; lia]. cbn [app length]. rewrite Nat.add_0_r.
+    eapply evals_reptail_stop; [apply skip_none; reflexivity | apply HE_stop].
+  - destruct t as [|c0 t0].
+    { cbn [app length]. rewrite Nat.add_0_r.
+      eapply evals_reptail_stop; [apply skip_none; reflexivity | apply HE_stop]. }
+    destruct (span_bl (c0 :: t0)) as [a b] eqn:Es.
+    destruct (span_bl_spec _ _ _ Es) as [Et [Ha Hb]].
+    destruct b as [|c b].
+    { exfalso. rewrite app_nil_r in Et. rewrite Et in He. rewrite all_blank_ends in He; [discriminate| |exact Ha].
+      intro Z. rewrite Z in Et. discriminate. }
+    rewrite Et in *. cbn [starts_blank] in Hb.
+    rewrite forallb_app in Hok. apply andb_prop in Hok as [_ Hok]. cbn [forallb] in Hok. apply andb_prop in Hok as [Hc Hok].
+    rewrite <- app_assoc. cbn [app].
+    change (@nil tree) with ([] ++ [] ++ @nil tree)%list.
+    eapply evals_reptail_step.
+    + apply skip_blanks; [exact Ha | exact Hb].
+    + apply HE_char; assumption.
+    + lia.
+    + rewrite app_length in *. cbn [length] in *.
+      replace (pos + (length a + S (length b)))%nat with (S (pos + length a) + length b)%nat by lia.
+      apply IH; [lia | exact Hok |].
+      destruct b as [|c1 b1]; [reflexivity|].
+      rewrite ends_ok_app_blank in He by (assumption || discriminate).
+      rewrite ends_ok_tail in He by discriminate. exact He.
+Qed.
+
+
+Lemma gen_chars c t pos rest : okc' c = true -> is_blank c = false -> forallb okc' t = true -> ends_ok (c :: t) = true ->
+  EV (PRep E) AtNon pos ((c :: t) ++ 10 :: rest) (POk (pos + length (c :: t)) (10 :: rest) []).
+Proof.
+  intros Hc Hb Hok He. cbn [app length].
+  change (@nil tree) with ([] ++ @nil tree)%list.
+  eapply evals_rep_some; [apply HE_char; assumption|].
+  replace (pos + S (length t))%nat with (S pos + length t)%nat by lia.
+  apply (gen_tail (length t)); [lia | exact Hok |].
+  destruct t; [reflexivity|]. rewrite ends_ok_tail in He by discriminate. exact He.
+Qed.
+
+End GenLoop.
+
 (** ---- a command line ---- *)
 Definition kw_prefixes : list str := [s_if; s_for; s_elseif; s_else; s_fi; s_while; s_done].
 Definition strict_nokw (line : str) : bool := forallb (fun p => negb (has_prefix p line)) kw_prefixes.
@@ -474,4 +526,310 @@ Proof.
     pose proof (Hf (Nat.max f0 (peg_fuel (render_block b))) (Nat.le_max_l _ _)) as H1.
     rewrite (ev_mono_le l_grammar _ _ _ _ _ _ _ E) in H1; [|discriminate|apply Nat.le_max_r].
     injection H1 as -> -> ->. exists (length (render_block b)), kids. split; [exact E | exact Hk].
+Qed.
+
+(** ================= groundwork for blocks: TEST and the heads ================= *)
+Definition STOPSET : pexp := PAlt NL (PAlt (PRef L_DUMMY_THEN) (PRef L_DUMMY_DO)).
+Definition E_test : pexp := PSeq (PNot STOPSET) PAny.
+Definition okt (c : char) : bool := okc c && negb (c =? 59).
+
+Lemma semi_fail c r : (c =? 59) = false -> strip_prefix [59] (c :: r) = None.
+Proof. intro H. cbn [strip_prefix]. rewrite N.eqb_sym, H. reflexivity. Qed.
+
+Lemma stopset_fail pos c r : okt c = true -> EV STOPSET AtNon pos (c :: r) PFail.
+Proof.
+  intro H. unfold okt in H. apply andb_prop in H as [H1 H2]. apply negb_true_iff in H2.
+  unfold STOPSET. apply evals_alt_r; [apply nl_fail, H1|].
+  apply evals_alt_r; ref_s; apply evals_seq_fail, evals_str_fail, semi_fail, H2.
+Qed.
+
+Lemma stopset_nl pos r : EV STOPSET AtNon pos (10 :: r) (POk (S pos) r []).
+Proof. unfold STOPSET. apply evals_alt_l, nl_ok. Qed.
+
+Lemma Et_char pos c r : okt c = true -> is_blank c = false -> EV E_test AtNon pos (c :: r) (POk (S pos) r []).
+Proof.
+  intros Hc Hb. unfold E_test.
+  change (@nil tree) with ([] ++ [] ++ @nil tree)%list.
+  eapply evals_seq_ok; [apply evals_not_ok, stopset_fail, Hc | apply skip_none; exact Hb | apply evals_any].
+Qed.
+
+Lemma Et_stop pos r : EV E_test AtNon pos (10 :: r) PFail.
+Proof. unfold E_test. apply evals_seq_fail. eapply evals_not_fail, stopset_nl. Qed.
+
+(** E ~ E*  (the unrolled E+) over a text: after the first character the implicit skip runs once *)
+Section SeqRep.
+Variable E : pexp.
+Variable okc' : char -> bool.
+Hypothesis HE_char : forall pos c r, okc' c = true -> is_blank c = false -> EV E AtNon pos (c :: r) (POk (S pos) r []).
+Hypothesis HE_stop : forall pos r, EV E AtNon pos (10 :: r) PFail.
+
+Lemma skip_rep t pos rest : forallb okc' t = true -> ends_ok t = true ->
+  exists p1 r1, EV PSkip AtNon pos (t ++ 10 :: rest) (POk p1 r1 []) /\
+                EV (PRep E) AtNon p1 r1 (POk (pos + length t) (10 :: rest) []).
+Proof.
+  intros Hok He. destruct (span_bl t) as [a b] eqn:Es.
+  destruct (span_bl_spec _ _ _ Es) as [Et [Ha Hb]]. subst t.
+  destruct b as [|c b].
+  - rewrite app_nil_r in *. destruct a as [|a0 a].
+    + exists pos, (10 :: rest). cbn [app length]. rewrite Nat.add_0_r. split.
+      * apply skip_none. reflexivity.
+      * apply evals_rep_none, HE_stop.
+    + rewrite all_blank_ends in He; [discriminate|discriminate|exact Ha].
+  - exists (pos + length a)%nat, ((c :: b) ++ 10 :: rest). split.
+    + rewrite <- app_assoc. apply skip_blanks; [exact Ha | exact Hb].
+    + rewrite forallb_app in Hok. apply andb_prop in Hok as [_ Hok]. cbn [forallb] in Hok.
+      apply andb_prop in Hok as [Hc Hok]. cbn [starts_blank] in Hb.
+      rewrite ends_ok_app_blank in He by (assumption || discriminate).
+      rewrite app_length. rewrite Nat.add_assoc.
+      apply (gen_chars E okc' HE_char HE_stop c b (pos + length a) rest Hc Hb Hok He).
+Qed.
+
+Lemma plus_chars c t pos rest : okc' c = true -> is_blank c = false -> forallb okc' t = true -> ends_ok (c :: t) = true ->
+  EV (PSeq E (PRep E)) AtNon pos ((c :: t) ++ 10 :: rest) (POk (pos + length (c :: t)) (10 :: rest) []).
+Proof.
+  intros Hc Hb Hok He.
+  assert (He' : ends_ok t = true) by (destruct t; [reflexivity | rewrite ends_ok_tail in He by discriminate; exact He]).
+  destruct (skip_rep t (S pos) rest Hok He') as [p1 [r1 [Hs Hr]]].
+  cbn [app length]. replace (pos + S (length t))%nat with (S pos + length t)%nat by lia.
+  change (@nil tree) with ([] ++ [] ++ @nil tree)%list.
+  eapply evals_seq_ok; [apply HE_char; assumption | exact Hs | exact Hr].
+Qed.
+End SeqRep.
+
+(** a condition / word list: one line, no `;`, no white space at either end *)
+Definition cond_ok (t : str) : bool := forallb okt t && starts_nonws t && ends_nonws t.
+
+Lemma test_parses pos cond rest : cond_ok cond = true ->
+  EV (PRef L_TEST) AtNon pos (cond ++ 10 :: rest)
+     (POk (pos + length cond) (10 :: rest) [Node L_TEST pos (pos + length cond) []]).
+Proof.
+  intro H. unfold cond_ok in H. apply andb_prop in H as [H He]. apply andb_prop in H as [Hok Hs].
+  destruct cond as [|c t]; [discriminate|].
+  cbn [starts_nonws] in Hs. apply negb_true_iff in Hs.
+  assert (Hb : is_blank c = false) by (apply blank_ws, Hs).
+  assert (He' : ends_ok (c :: t) = true).
+  { unfold ends_nonws in He. unfold ends_ok. destruct (rev (c :: t)); [reflexivity|].
+    apply negb_true_iff in He. rewrite (blank_ws _ He). reflexivity. }
+  cbn [forallb] in Hok. apply andb_prop in Hok as [Hc Hok].
+  eapply evals_ref_normal_ok; [reflexivity | reflexivity |].
+  apply (plus_chars E_test okt Et_char Et_stop c t pos rest Hc Hb Hok He').
+Qed.
+
+(** WHILE_HEAD / IF_HEAD on  `while cond NL` / `if cond NL`  (newline spelling) *)
+Lemma cond_starts cond rest : cond_ok cond = true -> starts_blank (cond ++ 10 :: rest) = false.
+Proof.
+  intro H. unfold cond_ok in H. apply andb_prop in H as [H _]. apply andb_prop in H as [_ Hs].
+  destruct cond as [|c t]; [discriminate|]. cbn. apply blank_ws. cbn in Hs. apply negb_true_iff in Hs. exact Hs.
+Qed.
+
+Lemma then_do_fail pos r : EV (PAlt (PRef L_DUMMY_THEN) NL) AtNon pos (10 :: r) (POk (S pos) r []) /\
+                           EV (PAlt (PRef L_DUMMY_DO) NL) AtNon pos (10 :: r) (POk (S pos) r []).
+Proof.
+  split; (apply evals_alt_r; [ref_s; apply evals_seq_fail, evals_str_fail; reflexivity | apply nl_ok]).
+Qed.
+
+Lemma while_head_parses pos cond rest : cond_ok cond = true ->
+  EV (PRef L_WHILE_HEAD) AtNon pos (s_while ++ cond ++ 10 :: rest)
+     (POk (S (pos + 6 + length cond)) rest
+        [Node L_WHILE_HEAD pos (S (pos + 6 + length cond)) [Node L_TEST (pos + 6) (pos + 6 + length cond) []]]).
+Proof.
+  intro H. eapply evals_ref_normal_ok; [reflexivity | reflexivity |].
+  change [Node L_TEST (pos + 6) (pos + 6 + length cond) []]
+    with ([] ++ [] ++ ([Node L_TEST (pos + 6) (pos + 6 + length cond) []] ++ [] ++ []))%list.
+  eapply evals_seq_ok.
+  - ref_s. apply evals_str_ok. apply strip_prefix_app_some.
+  - apply skip_none, cond_starts, H.
+  - eapply evals_seq_ok.
+    + apply test_parses, H.
+    + apply skip_none. reflexivity.
+    + apply then_do_fail.
+Qed.
+
+Lemma if_head_parses pos cond rest : cond_ok cond = true ->
+  EV (PRef L_IF_HEAD) AtNon pos (s_if ++ cond ++ 10 :: rest)
+     (POk (S (pos + 3 + length cond)) rest
+        [Node L_IF_HEAD pos (S (pos + 3 + length cond)) [Node L_TEST (pos + 3) (pos + 3 + length cond) []]]).
+Proof.
+  intro H. eapply evals_ref_normal_ok; [reflexivity | reflexivity |].
+  change [Node L_TEST (pos + 3) (pos + 3 + length cond) []]
+    with ([] ++ [] ++ ([Node L_TEST (pos + 3) (pos + 3 + length cond) []] ++ [] ++ []))%list.
+  eapply evals_seq_ok.
+  - ref_s. apply evals_str_ok. apply strip_prefix_app_some.
+  - apply skip_none, cond_starts, H.
+  - eapply evals_seq_ok.
+    + apply test_parses, H.
+    + apply skip_none. reflexivity.
+    + apply then_do_fail.
+Qed.
+
+(** ================= one block: `while cond / flat body / done` ================= *)
+(** ---- a flat body inside a block: the repetition stops at the closing keyword ---- *)
+Section BodyLoop.
+Variable A : pexp.
+Variable T : str.     (* what follows the body *)
+Hypothesis A_cmd : forall pos line rest, cmd_ok line = true ->
+  EV A AtNon pos (line ++ 10 :: rest) (POk (S (pos + length line)) rest [Node L_CMD pos (S (pos + length line)) []]).
+Hypothesis A_stop : forall pos, EV A AtNon pos T PFail.
+Hypothesis T_start : starts_blank T = false.
+
+Lemma render_lines_app_start ls : forallb cmd_ok ls = true -> starts_blank (render_lines ls ++ T) = false.
+Proof.
+  destruct ls as [|l r]; [intros _; exact T_start|]. cbn [forallb render_lines]. intro H. apply andb_prop in H as [H _].
+  rewrite <- app_assoc. cbn [app]. apply (cmd_ok_facts l H (render_lines r ++ T)).
+Qed.
+
+Lemma lines_tail_gen : forall ls pos, forallb cmd_ok ls = true ->
+  EV (PRepTail A) AtNon pos (render_lines ls ++ T) (POk (pos + length (render_lines ls)) T (cmd_nodes pos ls)).
+Proof.
+  induction ls as [|l r IH]; intros pos H.
+  - cbn [render_lines length cmd_nodes app]. rewrite Nat.add_0_r.
+    eapply evals_reptail_stop; [apply skip_none, T_start | apply A_stop].
+  - pose proof (render_lines_app_start _ H) as Hs.
+    cbn [forallb] in H. apply andb_prop in H as [Hl Hr].
+    cbn [render_lines cmd_nodes] in *. rewrite <- app_assoc in *. cbn [app] in *.
+    replace (pos + length (l ++ (10%N :: render_lines r)))%nat with (S (pos + length l) + length (render_lines r))%nat
+      by (rewrite app_length; cbn [length]; lia).
+    change (Node L_CMD pos (S (pos + length l)) [] :: cmd_nodes (S (pos + length l)) r)
+      with ([] ++ [Node L_CMD pos (S (pos + length l)) []] ++ cmd_nodes (S (pos + length l)) r)%list.
+    eapply evals_reptail_step; [apply skip_none, Hs | apply A_cmd, Hl | lia | apply IH, Hr].
+Qed.
+
+(** A ~ A*  over a non-empty flat body *)
+Lemma body_plus l r pos : forallb cmd_ok (l :: r) = true ->
+  EV (PSeq A (PRep A)) AtNon pos (render_lines (l :: r) ++ T)
+     (POk (pos + length (render_lines (l :: r))) T (cmd_nodes pos (l :: r))).
+Proof.
+  intro H. cbn [forallb] in H. apply andb_prop in H as [Hl Hr].
+  cbn [render_lines cmd_nodes]. rewrite <- app_assoc. cbn [app].
+  replace (pos + length (l ++ (10%N :: render_lines r)))%nat with (S (pos + length l) + length (render_lines r))%nat
+    by (rewrite app_length; cbn [length]; lia).
+  change (Node L_CMD pos (S (pos + length l)) [] :: cmd_nodes (S (pos + length l)) r)
+    with ([Node L_CMD pos (S (pos + length l)) []] ++ [] ++ cmd_nodes (S (pos + length l)) r)%list.
+  eapply evals_seq_ok; [apply A_cmd, Hl | apply skip_none, render_lines_app_start, Hr |].
+  destruct r as [|l2 r2].
+  - cbn [render_lines length cmd_nodes app]. rewrite Nat.add_0_r. apply evals_rep_none, A_stop.
+  - cbn [forallb] in Hr. apply andb_prop in Hr as [Hl2 Hr2].
+    cbn [render_lines cmd_nodes]. rewrite <- app_assoc. cbn [app].
+    replace (S (pos + length l) + length (l2 ++ (10%N :: render_lines r2)))%nat
+      with (S (S (pos + length l) + length l2) + length (render_lines r2))%nat
+      by (rewrite app_length; cbn [length]; lia).
+    change (Node L_CMD (S (pos + length l)) (S (S (pos + length l) + length l2)) [] :: cmd_nodes (S (S (pos + length l) + length l2)) r2)
+      with ([Node L_CMD (S (pos + length l)) (S (S (pos + length l) + length l2)) []] ++ cmd_nodes (S (S (pos + length l) + length l2)) r2)%list.
+    eapply evals_rep_some; [apply A_cmd, Hl2 | apply lines_tail_gen, Hr2].
+Qed.
+End BodyLoop.
+
+Definition X_body : pexp := PAlt (PRef L_CMD) (PAlt (PRef L_EXP_IF) (PAlt (PRef L_EXP_WHILE) (PRef L_EXP_FOR))).
+
+Lemma X_cmd pos line rest : cmd_ok line = true ->
+  EV X_body AtNon pos (line ++ 10 :: rest) (POk (S (pos + length line)) rest [Node L_CMD pos (S (pos + length line)) []]).
+Proof. intro H. apply evals_alt_l, cmd_parses, H. Qed.
+
+Lemma X_stop_done pos rest : EV X_body AtNon pos (s_done ++ 10 :: rest) PFail.
+Proof. apply (evals_of_ev l_grammar 40); [|discriminate]. destruct pos; vm_compute; reflexivity. Qed.
+
+Lemma X_stop_fi pos rest : EV X_body AtNon pos (s_fi ++ 10 :: rest) PFail.
+Proof. apply (evals_of_ev l_grammar 40); [|discriminate]. destruct pos; vm_compute; reflexivity. Qed.
+
+(** EXP_BODY over a non-empty flat body closed by `done` *)
+Lemma exp_body_done l r pos rest : forallb cmd_ok (l :: r) = true ->
+  EV (PRef L_EXP_BODY) AtNon pos (render_lines (l :: r) ++ s_done ++ 10 :: rest)
+     (POk (pos + length (render_lines (l :: r))) (s_done ++ 10 :: rest)
+          [Node L_EXP_BODY pos (pos + length (render_lines (l :: r))) (cmd_nodes pos (l :: r))]).
+Proof.
+  intro H. eapply evals_ref_normal_ok; [reflexivity | reflexivity |].
+  apply (body_plus X_body (s_done ++ 10 :: rest) X_cmd (fun p => X_stop_done p rest) eq_refl l r pos H).
+Qed.
+
+(** `while cond NL  flat body  done NL`: the rule EXP_WHILE, spans included *)
+Lemma while_parses pos cond l r rest : cond_ok cond = true -> forallb cmd_ok (l :: r) = true ->
+  let body := render_lines (l :: r) in
+  let p1 := S (pos + 6 + length cond) in
+  let p2 := (p1 + length body)%nat in
+  EV (PRef L_EXP_WHILE) AtNon pos (s_while ++ cond ++ 10 :: body ++ s_done ++ 10 :: rest)
+     (POk (p2 + 5) rest
+        [Node L_EXP_WHILE pos (p2 + 5)
+           [Node L_WHILE_HEAD pos p1 [Node L_TEST (pos + 6) (pos + 6 + length cond) []];
+            Node L_EXP_BODY p1 p2 (cmd_nodes p1 (l :: r))]]).
+Proof.
+  intros Hc Hb body p1 p2.
+  eapply evals_ref_normal_ok; [reflexivity | reflexivity |].
+  change [Node L_WHILE_HEAD pos p1 [Node L_TEST (pos + 6) (pos + 6 + length cond) []]; Node L_EXP_BODY p1 p2 (cmd_nodes p1 (l :: r))]
+    with ([] ++ [] ++ ([Node L_WHILE_HEAD pos p1 [Node L_TEST (pos + 6) (pos + 6 + length cond) []]] ++ [] ++
+           ([Node L_EXP_BODY p1 p2 (cmd_nodes p1 (l :: r))] ++ [] ++ [])))%list.
+  eapply evals_seq_ok; [apply opt_soi | apply skip_none; reflexivity |].
+  eapply evals_seq_ok.
+  - apply while_head_parses, Hc.
+  - apply skip_none. apply (render_lines_app_start (s_done ++ 10 :: rest) eq_refl (l :: r) Hb).
+  - eapply evals_seq_ok.
+    + apply exp_body_done, Hb.
+    + apply skip_none. reflexivity.
+    + ref_s. apply (evals_of_ev l_grammar 6); [|discriminate]. vm_compute. rewrite !Nat.add_succ_r, !Nat.add_0_r. reflexivity.
+Qed.
+
+(** ---- a script that is one `while` block around a flat body ---- *)
+Lemma annot_cmds_suf : forall ls pre suf, forallb cmd_ok ls = true ->
+  map (annotate (pre ++ render_lines ls ++ suf)) (cmd_nodes (length pre) ls) = map cmd_t ls.
+Proof.
+  induction ls as [|l r IH]; intros pre suf H; [reflexivity|].
+  cbn [forallb] in H. apply andb_prop in H as [Hl Hr].
+  cbn [render_lines cmd_nodes map]. f_equal.
+  - cbn [annotate map]. unfold cmd_t. f_equal.
+    replace (pre ++ (l ++ 10 :: render_lines r) ++ suf) with (pre ++ (l ++ [10]) ++ (render_lines r ++ suf))
+      by (rewrite <- !app_assoc; reflexivity).
+    replace (S (length pre + length l)) with (length pre + length (l ++ [10%N]))%nat
+      by (rewrite app_length; cbn [length]; lia).
+    rewrite sub_mid. unfold cmd_ok in Hl.
+    apply andb_prop in Hl as [Hl _]. apply andb_prop in Hl as [Hl He]. apply andb_prop in Hl as [_ Hs].
+    apply trim_line; assumption.
+  - replace (pre ++ (l ++ 10 :: render_lines r) ++ suf) with ((pre ++ l ++ [10]) ++ render_lines r ++ suf)
+      by (rewrite <- !app_assoc; reflexivity).
+    replace (S (length pre + length l)) with (length (pre ++ l ++ [10%N]))
+      by (rewrite !app_length; cbn [length]; lia).
+    apply IH, Hr.
+Qed.
+
+Lemma trim_self t : starts_nonws t = true -> ends_nonws t = true -> trim t = t.
+Proof.
+  intros Hs He. unfold trim. rewrite trim_start_nonws by exact Hs.
+  unfold trim_end. unfold ends_nonws in He. rewrite trim_start_nonws; [apply rev_involutive|].
+  destruct (rev t); [discriminate|exact He].
+Qed.
+
+Definition while_script (cond : str) (ls : list str) : str :=
+  s_while ++ cond ++ 10 :: render_lines ls ++ s_done ++ [10].
+
+(** positions only: the whole script `while cond / flat body / done` is parsed completely, to
+    EXP [ EXP_WHILE [ WHILE_HEAD [TEST]; EXP_BODY [CMD ...] ]; EOI ]  with these spans *)
+Theorem while_script_parses_pos cond l r : cond_ok cond = true -> forallb cmd_ok (l :: r) = true ->
+  let src := while_script cond (l :: r) in
+  let p1 := S (6 + length cond) in
+  let p2 := (p1 + length (render_lines (l :: r)))%nat in
+  EV (PRef L_EXP) AtNon 0 src
+     (POk (length src) []
+        [Node L_EXP 0 (length src)
+           [Node L_EXP_WHILE 0 (p2 + 5)
+              [Node L_WHILE_HEAD 0 p1 [Node L_TEST 6 (6 + length cond) []];
+               Node L_EXP_BODY p1 p2 (cmd_nodes p1 (l :: r))];
+            Node L_EOI (length src) (length src) []]]).
+Proof.
+  intros Hc Hb src p1 p2.
+  pose proof (while_parses 0 cond l r [] Hc Hb) as P. cbv zeta in P. cbn [Nat.add] in P. fold p1 in P. fold p2 in P.
+  assert (Hn : length src = (p2 + 5)%nat).
+  { unfold src, while_script, p2, p1. rewrite !app_length. cbn [length]. rewrite !app_length. cbn [length].
+    change (length s_while) with 6%nat. change (length s_done) with 4%nat. lia. }
+  eapply evals_ref_normal_ok; [reflexivity | reflexivity |].
+  change [Node L_EXP_WHILE 0 (p2 + 5) [Node L_WHILE_HEAD 0 p1 [Node L_TEST 6 (6 + length cond) []]; Node L_EXP_BODY p1 p2 (cmd_nodes p1 (l :: r))];
+          Node L_EOI (length src) (length src) []]
+    with ([] ++ [] ++ (([Node L_EXP_WHILE 0 (p2 + 5) [Node L_WHILE_HEAD 0 p1 [Node L_TEST 6 (6 + length cond) []]; Node L_EXP_BODY p1 p2 (cmd_nodes p1 (l :: r))]] ++ []) ++ [] ++
+          [Node L_EOI (length src) (length src) []]))%list.
+  eapply evals_seq_ok; [apply (evals_of_ev l_grammar 1); [reflexivity|discriminate] | apply skip_none; reflexivity |].
+  eapply evals_seq_ok.
+  - eapply evals_rep_some.
+    + unfold Y_top. apply evals_alt_r; [apply exp_if_fails; reflexivity|].
+      apply evals_alt_r; [apply exp_for_fails; reflexivity|].
+      apply evals_alt_l. exact P.
+    + eapply evals_reptail_stop; [apply skip_none; reflexivity | apply Y_nil].
+  - apply skip_none. reflexivity.
+  - rewrite Hn. apply (evals_of_ev l_grammar 1); [reflexivity|discriminate].
 Qed.
